@@ -1,0 +1,53 @@
+//go:build verif
+
+// Verification hooks (build tag verif) for C14, store side: let an external harness create a series index the way the
+// store does when a shard is created (DBPTInfo.NewMergeSetIndex from the time ranges ts-meta hands out) and reopen the
+// indexes of a partition the way a restarting store does (DBPTInfo.OpenIndexes). No behaviour of its own.
+package engine
+
+import (
+	"time"
+
+	"github.com/influxdata/influxdb/pkg/limiter"
+	"github.com/openGemini/openGemini/lib/config"
+	"github.com/openGemini/openGemini/lib/cpu"
+	"github.com/openGemini/openGemini/lib/metaclient"
+	meta2 "github.com/openGemini/openGemini/lib/util/lifted/influx/meta"
+)
+
+// VerifStoreNewIndex: the index part of DBPTInfo.NewShard (same lock as EngineImpl.CreateShard takes).
+func (e *EngineImpl) VerifStoreNewIndex(db string, pt uint32, rp string, tri *meta2.ShardTimeRangeInfo, client metaclient.MetaClient) (uint64, error) {
+	p := e.DBPartitions[db][pt]
+	p.mu.Lock()
+	defer p.mu.Unlock()
+	id, _, _, _, err := p.NewMergeSetIndex(rp, tri, client, config.TSSTORE)
+	return id, err
+}
+
+// VerifIndexEnd reports the end time an installed index builder holds.
+func (e *EngineImpl) VerifIndexEnd(db string, pt uint32, id uint64) (time.Time, bool) {
+	ib, ok := e.DBPartitions[db][pt].indexBuilder[id]
+	if !ok {
+		return time.Time{}, false
+	}
+	return ib.GetEndTime(), true
+}
+
+// VerifCloseIndexes closes every index builder of the partition (process stop).
+func (e *EngineImpl) VerifCloseIndexes(db string, pt uint32) {
+	p := e.DBPartitions[db][pt]
+	for _, ib := range p.indexBuilder {
+		_ = ib.Close()
+	}
+	for _, ib := range p.delIndexBuilderMap {
+		_ = ib.Close()
+	}
+}
+
+// VerifOpenIndexes: what a starting store does for one policy of a partition.
+func (e *EngineImpl) VerifOpenIndexes(db string, pt uint32, rp string, client metaclient.MetaClient) error {
+	if openShardsLimit == nil {
+		openShardsLimit = limiter.NewFixed(cpu.GetCpuNum())
+	}
+	return e.DBPartitions[db][pt].OpenIndexes(0, rp, config.TSSTORE, client)
+}
